@@ -107,7 +107,7 @@ def hard_query(zs, names, timeout_s, rlimit=None):
     return verdict, env
 
 
-WALL_S = float(os.environ.get("SYMSIG_WALL_S", "60"))
+WALL_S = float(os.environ.get("SYMSIG_WALL_S", "300"))
 
 
 def decide(pc, obl, rlimit=None, timeout_ms=None):
